@@ -2,7 +2,7 @@
 from fractions import Fraction
 
 from common import enc_arr, enc_vec, enc_f, coq_q, coq_list, coq_mat, coq_val, dyadic, dec_res, run_impl
-from framework import prove, correspond, finish
+from framework import prove, correspond, sweep, finish
 import oracle_q as oq
 
 DEPS = ["Props/C11.vo", "Corr/C11.vo"]
@@ -218,6 +218,61 @@ def run(ctx):
     correspond(ctx, "newton_refine_intersect", pl,
                [("shim.newton_refine_intersect", a_ni, val_out), ("hazmat.newton_refine_intersect", a_ni, val_out)],
                coq_ni, HEADER, "chk_newton_intersect", judge=judge_ni, nontrivial=nt)
+    # the two Newton SYSTEMS of the curve-curve end game (NewtonSimpleRoot: F, DF; NewtonDoubleRoot: DG^T DG, DG^T G with
+    # G = [F; B1' x B2'], DG = [B1', -B2'; B1'' x B2', B1' x B2'']), built as full_newton_nonzero builds them: exact reference
+    rng = ctx.rng
+    ns = []
+    for _ in range(40 if ctx.quick() else 1500):
+        n1, n2 = rng.randint(1, 5), rng.randint(1, 5)
+        ns.append({"rows": [[F(rng.randint(-16, 16), 4) for _ in range(n1 + 1)] for _ in range(2)],
+                   "rows2": [[F(rng.randint(-16, 16), 4) for _ in range(n2 + 1)] for _ in range(2)],
+                   "s": F(rng.randint(0, 16), 16), "t": F(rng.randint(0, 16), 16)})
+
+    def dnet(r):
+        n = len(r) - 1
+        return [n * (r[i + 1] - r[i]) for i in range(n)]
+
+    def ev(r, x):
+        return oq.bernstein(r, x) if r else F(0)
+
+    def judge_sys(c, op, cfg, raw):
+        if "exc" in raw:
+            return "raised %s: %s" % (raw["exc"], raw.get("msg", "")[:80])
+        lhs, rhs = dec_res(raw["ok"])
+        b1, b2 = c["rows"], c["rows2"]
+        d1, d2 = [dnet(r) for r in b1], [dnet(r) for r in b2]
+        dd1, dd2 = [dnet(r) for r in d1], [dnet(r) for r in d2]
+        s_, t_ = c["s"], c["t"]
+        f = [ev(b1[k], s_) - ev(b2[k], t_) for k in range(2)]
+        p1, p2 = [ev(r, s_) for r in d1], [ev(r, t_) for r in d2]
+        cross = lambda u, v: u[0] * v[1] - u[1] * v[0]
+        if op.endswith("simple_root"):
+            want_rhs = [[f[0]], [f[1]]]
+            want_lhs = None if f == [0, 0] else [[p1[0], -p2[0]], [p1[1], -p2[1]]]
+        else:
+            g = f + [cross(p1, p2)]
+            q1, q2 = [ev(r, s_) for r in dd1], [ev(r, t_) for r in dd2]
+            dg = [[p1[0], -p2[0]], [p1[1], -p2[1]], [cross(q1, p2), cross(p1, q2)]]
+            if all(x == 0 for x in g):
+                want_lhs, want_rhs = None, [[f[0]], [f[1]]]
+            else:
+                want_lhs = [[sum(dg[k][i] * dg[k][j] for k in range(3)) for j in range(2)] for i in range(2)]
+                want_rhs = [[sum(dg[k][i] * g[k] for k in range(3))] for i in range(2)]
+        if (want_lhs is None) != (not lhs):
+            return "left-hand side %s, expected %s" % ("missing" if not lhs else "present", "None (the function value is exactly zero)" if want_lhs is None else "a matrix")
+        pairs_ = list(zip(sum(rhs, []) if rhs and isinstance(rhs[0], list) else rhs, sum(want_rhs, [])))
+        if want_lhs is not None:
+            pairs_ += list(zip(sum(lhs, []), sum(want_lhs, [])))
+        big = max([abs(w) for _g, w in pairs_] + [F(1)])
+        for got, want in pairs_:
+            if not isinstance(got, F):
+                return "non-finite entry %r" % (got,)
+            if abs(got - want) > F(1, 2 ** 36) * big:
+                return "entry %r, exact value %r (system of the %s-root Newton iteration at s=%s, t=%s)" % (
+                    float(got), float(want), "simple" if op.endswith("simple_root") else "double", s_, t_)
+        return None
+    a_sys = lambda c: [enc_arr(c["rows"]), enc_arr(c["rows2"]), enc_f(c["s"]), enc_f(c["t"])]
+    sweep(ctx, "newton_systems", ns, [("hazmat.newton_simple_root", a_sys), ("hazmat.newton_double_root", a_sys)], judge_sys, configs=("pure",))
     # triangles
     tr = gen_tri(ctx)
 
